@@ -30,7 +30,10 @@ def R3_latest_preceding_writer(ctx):
     facts = ctx.facts
     sites = [(b, bl, t) for b, bl, t in facts.callers_of(lambda c: norm_callee(c).endswith('BTreeMap::range')) if not facts.is_test(b['fn'], b)]
     ctx.count('R3.range-sites', len(sites))
-    ctx.ob('R3', 'mv_memory', 'anchor:range-sites', len(sites) >= 5, f'{len(sites)} BTreeMap::range sites (5 confirmed by reading: basic, code_by_address, storage x2, validate)')
+    # (the anchor is on WHO resolves reads this way, not on how many call sites spell it: a shared lookup helper is one site)
+    owners_ = set().union(*[facts.owners(b['fn']) for b, _, _ in sites] or [set()])
+    need_ = {'basic', 'code_by_address', 'storage', 'validate'}
+    ctx.ob('R3', 'mv_memory', 'anchor:range-sites', need_ <= owners_, f'{len(sites)} BTreeMap::range site(s), reached from {sorted(owners_)} (confirmed by reading: basic, code_by_address, storage x2, validate)')
     # a helper extracted after the pinned commit is analysed through the functions that call it
     # (its events appear in their paths with the caller's arguments substituted)
     for fnname in sorted(set().union(*[facts.owner_bodies(b['fn']) for b, _, _ in sites])):
@@ -99,6 +102,12 @@ def R1_R4_reads(ctx):
                 i = idx_of(p, g)
                 taken = None
                 for a in p.events[i:]:
+                    of_ = option_fact(a)
+                    if of_ and of_[1] == 'Some' and a.d['term'][0] != 'discr' or (of_ and of_[1] == 'Some' and a.d['term'][0] == 'discr' and a.d['term'][1][0] == 'call' and '::branch' in a.d['term'][1][1]):
+                        # the same "an entry was found" decision taken through `?` / is_some / let-else
+                        en = entry_of(of_[0])
+                        if en is not None and mentions(en, g.d['result']) and strip(of_[0]) == strip(en):
+                            taken = en
                     if a.kind == 'atom' and a.d['term'][0] == 'discr':
                         en = entry_of(a.d['term'][1])
                         if en is not None and mentions(en, g.d['result']):
